@@ -6,7 +6,7 @@ from hypothesis import strategies as st
 
 from gen.crystals import build_crystal, crystal_with_supercell, keys
 from oracles.models import dense_fc, springs_fc, sym_nac
-from vlib.case import Out, Sub, relerr, rng_from
+from vlib.case import Out, Sub, present, relerr, rng_from
 
 PROPERTY = "C08"
 TECHNIQUE = ("property-based testing (Hypothesis): closed-form Gamma-limit of the NAC term, commensurate-q invariance and "
@@ -73,8 +73,6 @@ def _setup(spec, zero_born=False):
         return None, Out(nontrivial=False, classes=["skipped"])
     if zero_born:
         Z = Z * 0.0
-    from vlib.case import present
-
     ph.nac_params = {"born": present(Z, spec.get("blayout", "array")), "dielectric": present(eps, spec.get("elayout", "array")),
                      "factor": spec["factor"], "method": spec["method"]}
     prim = ph.primitive
@@ -234,8 +232,6 @@ def run_zero(spec):
             np.linalg.eigvalsh(eps1).min() / ph.primitive.masses.min()
         _D(ph, [0.1, 0.2, 0.3])
         _D(ph, [0, 0, 0], [1, 0, 0])
-        from vlib.case import present
-
     ph.nac_params = {"born": present(Z, spec.get("blayout", "array")), "dielectric": present(eps, spec.get("elayout", "array")),
                      "factor": spec["factor"], "method": spec["method"]}
     q = rng.normal(size=3)
